@@ -23,27 +23,28 @@ class H3Run:
         key = sha(header_hash(), seed, tier, VERIF + "/tools/gen_h3.py", VERIF + "/harness/h3", VERIF + "/harness/ml", COQ + "/Model")
         self.dir = d = f"{CACHE}/runs/h3-{key}"
         self.build_err = None
-        if not os.path.exists(d + "/done"):
-            os.makedirs(d, exist_ok=True)
-            def one(k):
-                rc, out, _ = sh([sys.executable, VERIF + "/tools/gen_h3.py", f"{d}/p{k}.cpp", f"{d}/p{k}.cases", str(seed * 1000 + k), str(t["npars"]), str(t["nin"]), f"{d}/p{k}.meta.json"])
-                if rc: return ("gen", out)
-                rc, out, _ = sh(f"g++ -std=c++17 -O0 -pthread -DCTPG_VERIF -I{REPO}/include -I{VERIF}/harness/h3 -o {d}/p{k} {d}/p{k}.cpp", timeout=1800)
-                if rc: return ("compile", out)
-                rc1, _, _ = sh(f"timeout 300 {d}/p{k} > {d}/p{k}.real 2> {d}/p{k}.err", timeout=400)
-                rc2, out2, _ = sh(f"{self.mdir}/h3_model {d}/p{k}.cases > {d}/p{k}.model 2> {d}/p{k}.merr", timeout=1800)
-                if rc2: return ("model", open(f"{d}/p{k}.merr").read()[-800:])
-                # the driver mirror alone: grammar_info, tables and lexer automaton taken from the REAL dump
-                rc3, out3, _ = sh(f"{self.mdir}/h3_model {d}/p{k}.cases --real {d}/p{k}.real > {d}/p{k}.model_rt 2> {d}/p{k}.merr_rt", timeout=1800)
-                if rc3: return ("model", open(f"{d}/p{k}.merr_rt").read()[-800:])
-                os.remove(f"{d}/p{k}")
-                return ("ok", rc1)
-            with concurrent.futures.ThreadPoolExecutor(max_workers=8) as ex:
-                res = list(ex.map(one, range(t["nprog"])))
-            json.dump(res, open(d + "/status.json", "w"))
-            for kind, out in res:
-                if kind in ("gen", "model"): raise Broken(f"H3 {kind} failed: {str(out)[-800:]}")
-            open(d + "/done", "w").write("ok")
+        with locked(f"run-h3-{key}"):
+            if not os.path.exists(d + "/done"):
+                os.makedirs(d, exist_ok=True)
+                def one(k):
+                    rc, out, _ = sh([sys.executable, VERIF + "/tools/gen_h3.py", f"{d}/p{k}.cpp", f"{d}/p{k}.cases", str(seed * 1000 + k), str(t["npars"]), str(t["nin"]), f"{d}/p{k}.meta.json"])
+                    if rc: return ("gen", out)
+                    rc, out, _ = sh(f"g++ -std=c++17 -O0 -pthread -DCTPG_VERIF -I{REPO}/include -I{VERIF}/harness/h3 -o {d}/p{k} {d}/p{k}.cpp", timeout=1800)
+                    if rc: return ("compile", out)
+                    rc1, _, _ = sh(f"timeout 300 {d}/p{k} > {d}/p{k}.real 2> {d}/p{k}.err", timeout=400)
+                    rc2, out2, _ = sh(f"{self.mdir}/h3_model {d}/p{k}.cases > {d}/p{k}.model 2> {d}/p{k}.merr", timeout=1800)
+                    if rc2: return ("model", open(f"{d}/p{k}.merr").read()[-800:])
+                    # the driver mirror alone: grammar_info, tables and lexer automaton taken from the REAL dump
+                    rc3, out3, _ = sh(f"{self.mdir}/h3_model {d}/p{k}.cases --real {d}/p{k}.real > {d}/p{k}.model_rt 2> {d}/p{k}.merr_rt", timeout=1800)
+                    if rc3: return ("model", open(f"{d}/p{k}.merr_rt").read()[-800:])
+                    os.remove(f"{d}/p{k}")
+                    return ("ok", rc1)
+                with concurrent.futures.ThreadPoolExecutor(max_workers=8) as ex:
+                    res = list(ex.map(one, range(t["nprog"])))
+                json.dump(res, open(d + "/status.json", "w"))
+                for kind, out in res:
+                    if kind in ("gen", "model"): raise Broken(f"H3 {kind} failed: {str(out)[-800:]}")
+                open(d + "/done", "w").write("ok")
         self.status = json.load(open(d + "/status.json"))
         for kind, out in self.status:
             if kind == "compile": self.build_err = out
